@@ -28,6 +28,8 @@ T = {
  'C18-s1': ('C18', 'symbol imported via USE from a module whose definition is known (type.module set): the link is dropped by SymbolAttributes.__getstate__', 'missed (behaviour unchanged); caught after the attribute-by-attribute type fingerprint comparison of original and unpickled symbol tables (same-types cases)', 'caught-after-strengthening'),
  'C27-s1': ('C27', 'if/else (or else-if) inside a loop where the else side reads a variable written in the if-branch of the same conditional: it drops out of uses_symbols and loop_carried_dependencies', 'caught at once by ./check C26 (uses_symbols of the Conditional); missed by C27 until loops carrying values through different branches (if/else, else-if, nested if, WHERE/ELSEWHERE, SELECT CASE) were added to the routine corpus', 'caught-after-strengthening'),
  'C35-s1': ('C35', 'REAL(...) conversion of an integer quotient: cgen drops the parentheses around the cast operand, (double) iv / 2 instead of (double) (iv / 2)', 'missed (no template had a conversion of an integer quotient); caught after cast-of-int-quotient / cast-of-int-expressions / cast-of-array-element-quotient / cast-of-mod templates (7.0 vs 7.4166...)', 'caught-after-strengthening'),
+ 'C38-s1': ('C38', 'pool allocator: per-call stack requirements of successors kept in a dict keyed by callee name, so of several calls to the same kernel only the last one counts in MAX(...) for ISTSZ', 'missed (pool allocator was outside the C38 corpus: Cray pointers were not interpreted); caught after the interpreter learnt the address arithmetic of the pool allocator (LOC / C_SIZEOF / ISHFT, pointee regions with bounds and overlap traps) and 5 Scheduler-driven call trees were added; replay with gfortran -fcray-pointer -fsanitize=address', 'caught-after-strengthening'),
+ 'C43-s1': ('C43', 'DynamicUboundCheckRule treats dummies with an explicit lower bound (b(0:, :)) as assumed-shape and rewrites them to b(klon, klev): the lower bound is dropped by the fix', 'missed (the only UBOUND template was a module procedure, where the fix is lost by the conservative write); caught after free-subroutine templates with lower bounds in either dimension were added (solver model + gfortran replay)', 'caught-after-strengthening'),
  'C37-s1': ('C37', 'kernel temporary declared with upper-case letters, written before and read after a nested kernel call (vector pipelines)', 'missed; caught after the temp-across-nested-call call tree and upper-case spelling variants were added', 'caught-after-strengthening'),
 }
 for name, (prop, needs, verdict, status) in T.items():
